@@ -333,6 +333,7 @@ func runC15(c *Ctx) {
 		}
 		for g1 := 1; g1 < len(ts); g1++ {
 			for g2 := g1 + 1; g2 < len(ts); g2++ {
+				c.Sub(fmt.Sprintf("pairs: gaps %d and %d of %s", g1, g2, prog))
 				for f1 := range c15Fillers {
 					for f2 := range c15Fillers {
 						s2 := append([]string{}, sep...)
